@@ -1588,7 +1588,6 @@ def compare_layout(a, b):
 
 
 def _selftest_isar(seed, n_each=100):
-    import itertools
     from collections import Counter
     rng = random.Random(seed)
     ex = list(S.exhaustive_small(2))
@@ -1650,8 +1649,7 @@ def _selftest_isar(seed, n_each=100):
     print("(a) isar route vs text route: %d schemas" % n)
     print("    expressible in pure isar (no patch file): %d" % sum(1 for r in res if r["pure"]))
     print("    expressible in isar + patch:              %d" % sum(1 for r in res if r["patched"]))
-    why = Counter(re.sub(r"^\S+\.", "", r["pure_reason"]) if False else re.sub(r"^.*?\(", "(", r["pure_reason"])
-                  for r in res if not r["pure"])
+    why = Counter(re.sub(r"^.*?\(", "(", r["pure_reason"]) for r in res if not r["pure"])
     print("    first reason a patch is needed:", dict(why))
     print("    not expressible as text (skipped in the comparison): %d" % sum(1 for r in res if "notext" in r))
     cmp_ = [r for r in res if "diffs" in r or "error" in r]
